@@ -21,6 +21,9 @@ pub mod syntax_kind;
 
 pub(crate) use token_set::TokenSet;
 
+#[cfg(feature = "oq3_verif")]
+pub use parser::verif::take_work as verif_take_work;
+
 pub use crate::{
     input::Input,
     lexed_str::LexedStr,
